@@ -351,10 +351,10 @@ func buildPlan(id string, pinned map[string]string, tier string) *Plan {
 			"fp.Element.Bits is used through its contract (proved under C08); reg(v) is the integer denoted by a Montgomery representation"}
 		p.Assumptions = []string{"Hash: 0 <= count <= 2^32 (count*L does not wrap; a wrapping count would pass the length test and reach make with a huge length)",
 			"loop-carried digest slices of ExpandMsgXmd are fresh allocations (option fresh-loop-slices: every value assigned is a result of Sum(nil))"}
-		p.NotCovered = []string{"the bytes that are hashed (the b_0, b_i chain of expand_message_xmd) and the reduction of each block modulo q are not under contract: SHA-256 and math/big are outside",
+		p.NotCovered = []string{"how the digests of expand_message_xmd are assembled into the output and the reduction of each block modulo q are not under contract (what is hashed for b_0, b_1, b_i is; SHA-256 itself and math/big are outside)",
 			"MapToCurve (SvdW / SSWU), the isogenies, cofactor clearing, HashToG1/G2, EncodeToG1/G2: not under contract (is_square / sqrt case analysis is number theory at the ring layer)",
 			"RFC test vectors: a test-suite matter, not a contract"}
-		p.Note = "expand_message_xmd is total (every slice, index and allocation is a discharged obligation for every message, DST and length), returns exactly lenInBytes bytes, and returns an error exactly when the parameters are inadmissible (length outside 0..255*32 or DST longer than 255 bytes); Hash (hash_to_field) of every field returns exactly count elements, is total, and refuses exactly the inadmissible parameters with L = 16 + ceil(bits/8) recomputed from the pinned modulus; the sgn0 helpers return the parity of the integer denoted by the element (for Fp2: of x0, or of x1 when x0 = 0), and the NotZero helpers are zero exactly for the zero element."
+		p.Note = "expand_message_xmd is total (every slice, index and allocation is a discharged obligation for every message, DST and length), returns exactly lenInBytes bytes, and returns an error exactly when the parameters are inadmissible (length outside 0..255*32 or DST longer than 255 bytes), and hashes exactly what RFC 9380 5.3.1 prescribes: b_0 = H(64 zero bytes || msg || I2OSP(len_in_bytes, 2) || 0 || DST || len(DST)), b_1 = H(b_0 || 1 || DST || len(DST)), b_i = H(strxor(b_0, b_(i-1)) || i || DST || len(DST)), each digest taken after a Reset and exactly these writes (a ghost automaton checked before every Write), max(ell, 1) + 1 digests in all; Hash (hash_to_field) of every field returns exactly count elements, is total, and refuses exactly the inadmissible parameters with L = 16 + ceil(bits/8) recomputed from the pinned modulus; the sgn0 helpers return the parity of the integer denoted by the element (for Fp2: of x0, or of x1 when x0 = 0), and the NotZero helpers are zero exactly for the zero element."
 		return p
 	case "C20":
 		p := &Plan{ID: id}
